@@ -478,7 +478,7 @@ fn drv_dwarf_unit<R: Rd>(p: &mut Probe, dwarf: &Dwarf<R>, unit: &gimli::Unit<R>)
                 }
                 AttributeValue::Exprloc(x) => {
                     drv_expr_ops(p, x.0.clone(), unit.encoding());
-                    drv_eval(p, x.0, unit.encoding(), 0);
+                    drv_eval(p, x.0, unit.encoding(), 0, &[]);
                 }
                 AttributeValue::DebugStrOffsetsIndex(i) => {
                     let _ = ur.string_offset(i);
@@ -955,7 +955,7 @@ fn eval_types() -> Vec<ValueType> {
 }
 pub const EVAL_CHOICES: u64 = 12;
 
-pub fn drv_eval<R: Rd>(p: &mut Probe, bytes: R, enc: Encoding, mut choice: u64) {
+pub fn drv_eval<R: Rd>(p: &mut Probe, bytes: R, enc: Encoding, mut choice: u64, other_buffers: &[R]) {
     let mut nested: Vec<R> = vec![];
     {
         // at_location answers are windows of the expression itself (empty, whole, tail)
@@ -966,6 +966,10 @@ pub fn drv_eval<R: Rd>(p: &mut Probe, bytes: R, enc: Encoding, mut choice: u64) 
         let mut t = bytes.clone();
         let _ = t.skip(1.min(t.len()));
         nested.push(t);
+        // ... and expressions that live in OTHER buffers (a called DIE's location is not part of
+        // the caller's bytes): with a branch, a backward loop, a register location followed by
+        // more operations
+        nested.extend(other_buffers.iter().cloned());
     }
     let vals = eval_values();
     let tys = eval_types();
